@@ -22,6 +22,7 @@ func init() {
 	rt.Register("C03_verify_sym", VerifHarness_C03_verify_sym)
 	rt.Register("C01_repair_sym", VerifHarness_C01_repair_sym)
 	rt.Register("C16_search_sym", VerifHarness_C16_search_sym)
+	rt.Register("C16_two_files", VerifHarness_C16_two_files)
 }
 
 const (
@@ -367,6 +368,28 @@ func VerifHarness_C03_verify_two() {
 	}
 	_, err := checkVerify(s, 2)
 	rt.Assert(err == nil, "Verify returns a result")
+}
+
+// C16, second clause: a file's content under another protected file's name.
+// Only the findability oracle is asserted here (the clean-verdict clause of C03
+// has a recorded finding of its own).
+func VerifHarness_C16_two_files() {
+	s := buildArchiveMode([]int{4, 5}, 2, 1, contentChoice())
+	if rt.Bool("swap") {
+		a, b := s.fs.files[s.paths[0]], s.fs.files[s.paths[1]]
+		s.fs.put(s.paths[0], b)
+		s.fs.put(s.paths[1], a)
+	} else {
+		damage(s, 0, rt.Choice("kind0", dmgKinds-1), "a")
+		damage(s, 1, rt.Choice("kind1", 3), "b")
+	}
+	res, err := verify(s.fs, scnIndex, VerifyOptions{NumGoroutines: 1})
+	rt.Assert(err == nil, "Verify returns a result")
+	var allSlices [][]byte
+	for _, x := range s.orig {
+		allSlices = append(allSlices, slicesOf(x)...)
+	}
+	rt.Assert(res.ShardCounts.UsableDataShardCount >= int(safelyFindableAny(currentFiles(s), allSlices)), "every slice that survives at a non-overlapped offset in some protected file is counted usable")
 }
 
 // expectedLost is the number of protected slices a structured damage destroys
